@@ -152,8 +152,12 @@ func checkBytes(col *vt.C, kind, format string, data []byte, script any) (decode
 	if p, d := guarded(func() { facts = factsOf(pview.Of(v)) }); p {
 		return true, vt.Failf("panic/getters/"+kind, "walking a decoded value through its getters panics: %s", d)
 	}
-	if facts.maxDepth > maxCheckedDepth {
-		col.Exclude("decoded-value-nested>" + fmt.Sprint(maxCheckedDepth) + "(decode-only:marshal-is-quadratic-in-depth)")
+	limit := maxCheckedDepth
+	if fuzzing() {
+		limit = 1000 // keep the fuzzers' throughput: they would otherwise dwell on ever deeper (ever slower) inputs
+	}
+	if facts.maxDepth > limit {
+		col.Exclude("decoded-value-nested>" + fmt.Sprint(limit) + "(decode-only:marshal-is-quadratic-in-depth)")
 		return true, nil
 	}
 	// hidden state: a deprecated scope list that was not migrated is invisible through the API but re-marshaled
